@@ -6,7 +6,7 @@ from ..astq import is_name, is_self_attr, kwarg, returns_of, parse_fixture, comp
 from ..callgraph import CallGraph
 from ..cfg import CFG
 from ..core import AnalysisError, norm, walk_local, FuncInfo
-from ..pairing import (classify_stmt, contextvars_of, node_probe, released_on_all_normal_paths, rollback_findings)
+from ..pairing import (classify_stmt, contextvars_of, journal_findings, node_probe, released_on_all_normal_paths, rollback_findings)
 
 PAIRS = [
     # (acquiring method, releasing method, why they are a pair)
@@ -115,6 +115,12 @@ def run(repo, chk):
                 if (res, acq) not in bad:
                     chk.ob("R05.1", f"{fi.qual}:{res}:after[{acq}]", True, fi.where,
                            f"no exceptional exit after `{acq}` misses the release of {res}")
+
+    # journaled rollbacks release exactly what was acquired
+    for fi, wrap in acquire_functions(repo, ctxvars, cg):
+        for journal, res, site, ok, detail in journal_findings(repo, fi, cg, ctxvars):
+            chk.ob("R05.1", f"{fi.qual}:journal[{journal}]:records-only-completed-acquires[{site}]", ok, fi.where,
+                   f"the rollback journal `{journal}` of {fi.qual} is appended to only after the {res} acquire it records" if ok else detail)
 
     # ---- R05.2
     for acq_q, rel_q, why in PAIRS:
